@@ -7,8 +7,8 @@ export GOFLAGS=-mod=mod GOPROXY=off GOSUMDB=off GOTOOLCHAIN=local CGO_ENABLED=0
 mkdir -p .build/bin evidence
 go mod tidy >/dev/null 2>&1 || true
 rc=0
-for d in checks/*/; do
-  lc=$(basename "$d")
+for lc in $(python3 -c "import json;print(' '.join(k.lower() for k in json.load(open('tools/checks.json'))))"); do
+  d="checks/$lc/"
   if [ -x "$d/build.sh" ]; then "$d/build.sh" ".build/bin/$lc" >".build/$lc.build.log" 2>&1 || { echo "setup: build of $lc failed"; tail -20 ".build/$lc.build.log"; rc=1; }
   else go build -o ".build/bin/$lc" "./$d" >".build/$lc.build.log" 2>&1 || { echo "setup: build of $lc failed"; tail -20 ".build/$lc.build.log"; rc=1; }
   fi
